@@ -1631,19 +1631,31 @@ func (r *Regex) UnmarshalText(text []byte) error {
 	return nil
 }
 
-// MatchReader reports whether the text returned by the RuneReader
-// contains any match of the regular expression re.
-func (r *Regex) MatchReader(reader io.RuneReader) bool {
-	// Read all runes into a string and match
-	var runes []rune
+// readAllRunes drains the reader into a byte slice in which every delivered rune
+// occupies as many bytes as the reader reported for it, so that match offsets are
+// the byte offsets of the input stream, as in stdlib regexp: an ill-formed byte
+// (delivered as utf8.RuneError with size 1) stays one ill-formed byte instead of
+// becoming the three bytes of an encoded U+FFFD.
+func readAllRunes(reader io.RuneReader) []byte {
+	var buf []byte
 	for {
-		rn, _, err := reader.ReadRune()
+		rn, size, err := reader.ReadRune()
 		if err != nil {
 			break
 		}
-		runes = append(runes, rn)
+		if rn == utf8.RuneError && size == 1 {
+			buf = append(buf, 0xFF)
+			continue
+		}
+		buf = utf8.AppendRune(buf, rn)
 	}
-	return r.MatchString(string(runes))
+	return buf
+}
+
+// MatchReader reports whether the text returned by the RuneReader
+// contains any match of the regular expression re.
+func (r *Regex) MatchReader(reader io.RuneReader) bool {
+	return r.Match(readAllRunes(reader))
 }
 
 // FindReaderIndex returns a two-element slice of integers defining the
@@ -1652,16 +1664,7 @@ func (r *Regex) MatchReader(reader io.RuneReader) bool {
 // byte offset loc[0] through loc[1]-1.
 // A return value of nil indicates no match.
 func (r *Regex) FindReaderIndex(reader io.RuneReader) []int {
-	// Read all runes into a string and find
-	var runes []rune
-	for {
-		rn, _, err := reader.ReadRune()
-		if err != nil {
-			break
-		}
-		runes = append(runes, rn)
-	}
-	return r.FindStringIndex(string(runes))
+	return r.FindIndex(readAllRunes(reader))
 }
 
 // FindReaderSubmatchIndex returns a slice holding the index pairs
@@ -1671,16 +1674,7 @@ func (r *Regex) FindReaderIndex(reader io.RuneReader) []int {
 // package comment.
 // A return value of nil indicates no match.
 func (r *Regex) FindReaderSubmatchIndex(reader io.RuneReader) []int {
-	// Read all runes into a string and find
-	var runes []rune
-	for {
-		rn, _, err := reader.ReadRune()
-		if err != nil {
-			break
-		}
-		runes = append(runes, rn)
-	}
-	return r.FindStringSubmatchIndex(string(runes))
+	return r.FindSubmatchIndex(readAllRunes(reader))
 }
 
 // MatchReader reports whether the text returned by the RuneReader
